@@ -22,6 +22,7 @@ import ClarabelProofs.Lemmas.SolverNSBridgeInit
 import ClarabelProofs.Lemmas.SolverNSBridgeMem
 import ClarabelProofs.Lemmas.SolverNSFullZero
 import ClarabelProofs.Lemmas.SolverNSFullExample
+import ClarabelProofs.Lemmas.SolverNSFullPresolvedCert
 
 namespace Clarabel.C02
 open Clarabel Clarabel.InfoUser Clarabel.Dense
@@ -274,5 +275,149 @@ example : ∃ S r p l, FullExample.newSolverT #[-5, 0, 0, 0] (FullExample.stT to
 end
 
 end nsExamples
+
+
+/-! ### presolve DROPS rows (model with nonsymmetric cones) -/
+
+/-- **[R] `C02.ns_full_primal_infeasible_certifies_presolved`** — `ns_full_primal_infeasible_certifies`
+when PRESOLVE DROPS ROWS (presolve enabled, `keep` the keep vector of `make_reduction_map`, at least one
+row dropped).  The full-length `z` the user receives (`reverse_presolve`: `z = 0` on the dropped rows)
+satisfies the Farkas conditions VERBATIM on the user's FULL `A`, `b` (capped):
+`c·κ·bᵀz < −tol_infeas_abs`, `bᵀz < 0`, `‖Aᵀz‖₂ < tol_infeas_rel·c·(−bᵀz)·max(1, κ‖z‖₂)`, and the FULL
+`z ∈ K*` for the user's collapsed cone list (all six cone kinds).  Composition of
+`C09.ns_presolve_transparent_full`, `ns_full_primal_infeasible_certifies` on the hand-reduced problem and
+the arithmetic of `C02.primal_cert_presolved`. -/
+theorem ns_full_primal_infeasible_certifies_presolved {P : Csc ℝ} {q : Array ℝ} {A : Csc ℝ} {b : Array ℝ}
+    {cones : List (ConeT ℝ)} {st : SolverNS.Settings ℝ} {perm : Array Nat} {S : SolverNS.Solver ℝ}
+    {r : SolverNS.SolveResult ℝ} {keep : List Bool}
+    (hin : Solver.InputOK P q A b cones) (hvc : Equil.ValidCones cones)
+    (hpe : st.presolveEnable = true)
+    (hk : Presolve.keepFlags (Presolve.threshold st.infbound) (Cones.newCollapsed cones) b.toList = .ok keep)
+    (hc : keep.count true < b.size)
+    (hlo : 0 < st.equil.minScaling) (hhi : 0 < st.equil.maxScaling)
+    (hf0 : 0 < st.maxStepFraction) (hf1 : st.maxStepFraction < 1) (hmv : 0 < st.maxValue)
+    (hb0 : 0 ≤ st.linesearchBacktrackStep) (hb1 : st.linesearchBacktrackStep ≤ 1)
+    (htabs : 0 ≤ st.info.full.infeas_abs)
+    (hnew : SolverNS.Solver.new P q A b cones st perm = .ok S) (hr : S.solve st = .ok r)
+    (hst : r.S.solution.status = .primalInfeasible) :
+    ∃ (c κ : ℝ), 0 < c ∧ 0 < κ ∧
+      let bc := ProblemData.capB b st.infbound
+      let z := vecFn r.S.solution.z A.m
+      c * κ * dot (vecFn bc A.m) z < -st.info.full.infeas_abs
+      ∧ dot (vecFn bc A.m) z < 0
+      ∧ nrm (mulVT (matFn A A.m A.n) z)
+          < st.info.full.infeas_rel * c * (-(dot (vecFn bc A.m) z)) * max 1 (κ * nrm z)
+      ∧ (∀ i, InfoPresolve.keepFn keep A.m i = false → z i = 0)
+      ∧ Equil.CompositeMem Equil.ConeMemDual (Cones.newCollapsed cones) r.S.solution.z.toList :=
+  SolverNS.full_primal_infeasible_presolved_chainN false hin hvc hpe hk hc hlo hhi hf0 hf1 hmv hb0 hb1
+    htabs (fun h => by cases h) hnew hr hst
+
+/-- **[R] `C02.ns_full_dual_infeasible_certifies_presolved`** — `ns_full_dual_infeasible_certifies` when
+PRESOLVE DROPS ROWS (`0 ≤ infbound`).  The returned `x` and full-length `s` satisfy on the user's FULL
+data: `c·κ·qᵀx < −tol_infeas_abs`, `qᵀx < 0`, `‖Px‖₂ < tol_infeas_rel·(−qᵀx)·max(1, κ‖x‖₂)` verbatim, and
+`‖Ax+s‖ < tol_infeas_rel·c·(−qᵀx)·max(1, κ(‖x‖₂+‖s‖))` with the two norms taken over the KEPT rows; the
+dropped rows carry `s = infbound`; the FULL `s ∈ K` for the user's collapsed cone list; `|x| = n`. -/
+theorem ns_full_dual_infeasible_certifies_presolved {P : Csc ℝ} {q : Array ℝ} {A : Csc ℝ} {b : Array ℝ}
+    {cones : List (ConeT ℝ)} {st : SolverNS.Settings ℝ} {perm : Array Nat} {S : SolverNS.Solver ℝ}
+    {r : SolverNS.SolveResult ℝ} {keep : List Bool}
+    (hin : Solver.InputOK P q A b cones) (hvc : Equil.ValidCones cones)
+    (hpe : st.presolveEnable = true)
+    (hk : Presolve.keepFlags (Presolve.threshold st.infbound) (Cones.newCollapsed cones) b.toList = .ok keep)
+    (hc : keep.count true < b.size) (hib : 0 ≤ st.infbound)
+    (hlo : 0 < st.equil.minScaling) (hhi : 0 < st.equil.maxScaling)
+    (hf0 : 0 < st.maxStepFraction) (hf1 : st.maxStepFraction < 1) (hmv : 0 < st.maxValue)
+    (hb0 : 0 ≤ st.linesearchBacktrackStep) (hb1 : st.linesearchBacktrackStep ≤ 1)
+    (htabs : 0 ≤ st.info.full.infeas_abs)
+    (hnew : SolverNS.Solver.new P q A b cones st perm = .ok S) (hr : S.solve st = .ok r)
+    (hst : r.S.solution.status = .dualInfeasible) :
+    ∃ (Pn : Csc ℝ) (c κ : ℝ), ProblemData.triuStep P = .ok Pn ∧ 0 < c ∧ 0 < κ ∧
+      let x := vecFn r.S.solution.x A.n
+      let sv := vecFn r.S.solution.s A.m
+      let kp := InfoPresolve.keepFn keep A.m
+      c * κ * dot (vecFn q A.n) x < -st.info.full.infeas_abs
+      ∧ dot (vecFn q A.n) x < 0
+      ∧ nrm (mulV (symFn Pn A.n) x)
+          < st.info.full.infeas_rel * (-(dot (vecFn q A.n) x)) * max 1 (κ * nrm x)
+      ∧ InfoPresolve.nrmKept kp (fun k => mulV (matFn A A.m A.n) x k + sv k)
+          < st.info.full.infeas_rel * c * (-(dot (vecFn q A.n) x))
+              * max 1 (κ * (nrm x + InfoPresolve.nrmKept kp sv))
+      ∧ (∀ i, kp i = false → sv i = st.infbound)
+      ∧ Equil.CompositeMem Equil.ConeMem (Cones.newCollapsed cones) r.S.solution.s.toList
+      ∧ r.S.solution.x.size = A.n :=
+  SolverNS.full_dual_infeasible_presolved_chainN false hin hvc hpe hk hc hib hlo hhi hf0 hf1 hmv hb0 hb1
+    htabs (fun h => by cases h) hnew hr hst
+
+/-- **[R] `C02.ns_full_almost_primal_infeasible_certifies_presolved`** — the same for
+`AlmostPrimalInfeasible` with the REDUCED tolerances, under the gate `1 ≤ 1000 / reduced_tol_ktratio`
+(see `ns_full_almost_primal_infeasible_certifies`). -/
+theorem ns_full_almost_primal_infeasible_certifies_presolved {P : Csc ℝ} {q : Array ℝ} {A : Csc ℝ} {b : Array ℝ}
+    {cones : List (ConeT ℝ)} {st : SolverNS.Settings ℝ} {perm : Array Nat} {S : SolverNS.Solver ℝ}
+    {r : SolverNS.SolveResult ℝ} {keep : List Bool}
+    (hin : Solver.InputOK P q A b cones) (hvc : Equil.ValidCones cones)
+    (hpe : st.presolveEnable = true)
+    (hk : Presolve.keepFlags (Presolve.threshold st.infbound) (Cones.newCollapsed cones) b.toList = .ok keep)
+    (hc : keep.count true < b.size)
+    (hlo : 0 < st.equil.minScaling) (hhi : 0 < st.equil.maxScaling)
+    (hf0 : 0 < st.maxStepFraction) (hf1 : st.maxStepFraction < 1) (hmv : 0 < st.maxValue)
+    (hb0 : 0 ≤ st.linesearchBacktrackStep) (hb1 : st.linesearchBacktrackStep ≤ 1)
+    (htabs : 0 ≤ st.info.reduced.infeas_abs)
+    (hgate : 1 ≤ (1 / st.info.reduced.ktratio) * 1000)
+    (hnew : SolverNS.Solver.new P q A b cones st perm = .ok S) (hr : S.solve st = .ok r)
+    (hst : r.S.solution.status = .almostPrimalInfeasible) :
+    ∃ (c κ : ℝ), 0 < c ∧ 0 < κ ∧
+      let bc := ProblemData.capB b st.infbound
+      let z := vecFn r.S.solution.z A.m
+      c * κ * dot (vecFn bc A.m) z < -st.info.reduced.infeas_abs
+      ∧ dot (vecFn bc A.m) z < 0
+      ∧ nrm (mulVT (matFn A A.m A.n) z)
+          < st.info.reduced.infeas_rel * c * (-(dot (vecFn bc A.m) z)) * max 1 (κ * nrm z)
+      ∧ (∀ i, InfoPresolve.keepFn keep A.m i = false → z i = 0)
+      ∧ Equil.CompositeMem Equil.ConeMemDual (Cones.newCollapsed cones) r.S.solution.z.toList :=
+  SolverNS.full_primal_infeasible_presolved_chainN true hin hvc hpe hk hc hlo hhi hf0 hf1 hmv hb0 hb1
+    htabs (fun _ => hgate) hnew hr hst
+
+/-- **[R] `C02.ns_full_almost_dual_infeasible_certifies_presolved`** — the same for
+`AlmostDualInfeasible` with the REDUCED tolerances, under the gate. -/
+theorem ns_full_almost_dual_infeasible_certifies_presolved {P : Csc ℝ} {q : Array ℝ} {A : Csc ℝ} {b : Array ℝ}
+    {cones : List (ConeT ℝ)} {st : SolverNS.Settings ℝ} {perm : Array Nat} {S : SolverNS.Solver ℝ}
+    {r : SolverNS.SolveResult ℝ} {keep : List Bool}
+    (hin : Solver.InputOK P q A b cones) (hvc : Equil.ValidCones cones)
+    (hpe : st.presolveEnable = true)
+    (hk : Presolve.keepFlags (Presolve.threshold st.infbound) (Cones.newCollapsed cones) b.toList = .ok keep)
+    (hc : keep.count true < b.size) (hib : 0 ≤ st.infbound)
+    (hlo : 0 < st.equil.minScaling) (hhi : 0 < st.equil.maxScaling)
+    (hf0 : 0 < st.maxStepFraction) (hf1 : st.maxStepFraction < 1) (hmv : 0 < st.maxValue)
+    (hb0 : 0 ≤ st.linesearchBacktrackStep) (hb1 : st.linesearchBacktrackStep ≤ 1)
+    (htabs : 0 ≤ st.info.reduced.infeas_abs)
+    (hgate : 1 ≤ (1 / st.info.reduced.ktratio) * 1000)
+    (hnew : SolverNS.Solver.new P q A b cones st perm = .ok S) (hr : S.solve st = .ok r)
+    (hst : r.S.solution.status = .almostDualInfeasible) :
+    ∃ (Pn : Csc ℝ) (c κ : ℝ), ProblemData.triuStep P = .ok Pn ∧ 0 < c ∧ 0 < κ ∧
+      let x := vecFn r.S.solution.x A.n
+      let sv := vecFn r.S.solution.s A.m
+      let kp := InfoPresolve.keepFn keep A.m
+      c * κ * dot (vecFn q A.n) x < -st.info.reduced.infeas_abs
+      ∧ dot (vecFn q A.n) x < 0
+      ∧ nrm (mulV (symFn Pn A.n) x)
+          < st.info.reduced.infeas_rel * (-(dot (vecFn q A.n) x)) * max 1 (κ * nrm x)
+      ∧ InfoPresolve.nrmKept kp (fun k => mulV (matFn A A.m A.n) x k + sv k)
+          < st.info.reduced.infeas_rel * c * (-(dot (vecFn q A.n) x))
+              * max 1 (κ * (nrm x + InfoPresolve.nrmKept kp sv))
+      ∧ (∀ i, kp i = false → sv i = st.infbound)
+      ∧ Equil.CompositeMem Equil.ConeMem (Cones.newCollapsed cones) r.S.solution.s.toList
+      ∧ r.S.solution.x.size = A.n :=
+  SolverNS.full_dual_infeasible_presolved_chainN true hin hvc hpe hk hc hib hlo hhi hf0 hf1 hmv hb0 hb1
+    htabs (fun _ => hgate) hnew hr hst
+
+/-- non-vacuity of the presolve hypotheses (over `ℝ`, the instance of the first model's `…_presolved`
+theorems: cones `[nonneg 2]`, `b = (1, 2·10²⁰)`, bound `10²⁰` — `make_reduction_map` drops row 1; the
+cone parameters are admissible); the run hypotheses on an instance with an EXPONENTIAL cone and a dropped
+row: `C09.ns_presolve_transparent_full`'s example (`new` evaluated by the kernel) -/
+example : Presolve.keepFlags (Presolve.threshold (1e20 : ℝ)) (Cones.newCollapsed [ConeT.nonneg 2])
+      (#[1, 2e20] : Array ℝ).toList = .ok [true, false]
+    ∧ [true, false].count true < (#[1, 2e20] : Array ℝ).size ∧ (0 : ℝ) ≤ 1e20
+    ∧ Equil.ValidCones [ConeT.nonneg (α := ℝ) 2] :=
+  ⟨Solver.keepFlags_example, by decide, by norm_num, fun c hc => by
+    rcases List.mem_singleton.mp hc with rfl; trivial⟩
 
 end Clarabel.C02
